@@ -19,41 +19,28 @@ RULE = ("a group = one generated valid operation over v2/pkg/grpctest's schema (
         "order, or the base selection has depth >= 3.")
 
 # Repaired (no mapping any more, a regression is a VIOLATION): repeated-enum-argument-panic,
-# call-selection-alias-duplicate-dropped, nested-resolver-null-parent, concurrent-load-validfields-race.
+# call-selection-alias-duplicate-dropped, nested-resolver-null-parent, concurrent-load-validfields-race,
+# entity-batch-mixed-types, resolver-under-list-wrapper.
 # Known defects: every key needs its structural precondition to be present in the failing run
-# (feat = entity batch kind, tags = position contexts of the field-resolver / @requires fields of the
-# run: a abstract type, n nullable-or-nested list, o nullable object, l plain list, r below a
-# resolver, q below a @requires field, e entity root).
+# (tags = position contexts of the field-resolver / @requires fields of the run: a abstract type,
+# n nullable-or-nested list, o nullable object, l plain list, r below a resolver, p below a plain field
+# of a resolver's result, q below a @requires field, e entity root).
+UNSUPPORTED_ABSTRACT = "field resolvers below a union or interface value are not supported"
+
+
 def classify(case, detail):
     m = re.search(r" feat=(\w+) tags=(\S*) run=", detail)
-    feat, tags = (m.group(1), [t for t in m.group(2).split(",") if t]) if m else ("none", [])
+    tags = [t for t in m.group(2).split(",") if t] if m else []
     res_ctx = [t.split(":", 1)[1] for t in tags if t.startswith("resolver:")]
-    call_ctx = [t.split(":", 1)[1] for t in tags]
-
-    def has(ch, ctxs=res_ctx):
-        return any(ch in c for c in ctxs)
-
-    if feat == "multi" and tags and (
-            "is required but has no value" in detail or "why=extra-key" in detail or "why=missing-key" in detail
-            or "length of values doesn't match" in detail or "why=null-at-non-null" in detail):
-        return "entity-batch-mixed-types"
+    # resolver-in-abstract-fragment: since the repair of the panic, Load answers with this error (only)
+    if detail.startswith("shape/errors") and UNSUPPORTED_ABSTRACT in detail and any("a" in c for c in res_ctx):
+        return "resolver-in-abstract-fragment"
+    # resolver-below-plain-field-of-resolver: the only keys missing are field resolvers at such positions
     missing = re.search(r"why=missing-key:(\S+)", detail)
     if missing:
-        keys = missing.group(1).split(",")
-        kinds = [k.split(":") for k in keys]
-        if all(len(k) >= 3 and k[1] == "resolver" for k in kinds):
-            ctxs = [k[2] for k in kinds]
-            if any("n" in c for c in ctxs):
-                return "resolver-under-list-wrapper"
-            if any("a" in c for c in ctxs):
-                return "resolver-in-abstract-fragment"
-    if "length of values doesn't match" in detail or "not found in object" in detail:
-        if has("n"):
-            return "resolver-under-list-wrapper"
-        if has("a"):
-            return "resolver-in-abstract-fragment"
-    if detail.startswith("total/load-panic") and "nil pointer" in detail and has("a"):
-        return "resolver-in-abstract-fragment"
+        kinds = [k.split(":") for k in missing.group(1).split(",")]
+        if all(len(k) >= 3 and k[1] == "resolver" and "p" in k[2] for k in kinds):
+            return "resolver-below-plain-field-of-resolver"
     return None
 
 
